@@ -219,6 +219,12 @@ func Inbound(a *Action, peerID, ourID string, ts string) []byte {
 	return Damage(Frame(fields), a.Integ)
 }
 
+// InboundOfType: an application message of the given MsgType (body as for "app").
+func InboundOfType(a *Action, ty, peerID, ourID, ts string) []byte {
+	fields := []Field{F("35", ty), F("49", peerID), F("56", ourID), F("34", strconv.Itoa(a.Seq)), F("52", ts), F("11", "ord1"), F("55", "BTC/USD")}
+	return Frame(fields)
+}
+
 // ---- independent tokenizer: raw bytes -> digest ----
 
 // Digest mirrors Session!Msg.
